@@ -69,6 +69,7 @@ var utName = map[api.UpdateType]string{api.UpdateTypeKVUnknown: "UTUnknown", api
 // recording sink: the flattened callback stream of the current operation
 type sink struct {
 	items []string // Coq terms
+	cbs   []string // the callbacks as they were made: CbUpdates [...] / CbStatus s
 	human []string
 	view  map[int]int
 }
@@ -79,10 +80,19 @@ func (s *sink) OnStatusUpdated(st api.SyncStatus) {
 		n = "WaitForDatastore"
 	}
 	s.items = append(s.items, fmt.Sprintf("IStatus %s", n))
+	s.cbs = append(s.cbs, fmt.Sprintf("CbStatus %s", n))
 	s.human = append(s.human, n)
 }
 
 func (s *sink) OnUpdates(us []api.Update) {
+	first := len(s.items)
+	defer func() {
+		var ts []string
+		for _, it := range s.items[first:] {
+			ts = append(ts, strings.TrimSuffix(strings.TrimPrefix(it, "IUpd ("), ")"))
+		}
+		s.cbs = append(s.cbs, fmt.Sprintf("CbUpdates [%s]", strings.Join(ts, "; ")))
+	}()
 	for _, u := range us {
 		k := keyIdx(u.Key)
 		if u.Value == nil {
@@ -114,6 +124,10 @@ type caseRun struct {
 	// bookkeeping for the non-triviality rule
 	lastDrained       bool
 	valueless         bool // some value-less update carried a type other than "deleted"
+	cbs               []string
+	batch             int // batch size of the consumer step being recorded (0: not a consumer step)
+	multiBatch        bool
+	events            []string // wire events, real-syncclient stream only
 	restartWithLive   bool
 	pendingResync     bool
 	convergedAfterRst bool
@@ -127,6 +141,8 @@ func (c *caseRun) finishOp(op string, h string) {
 func (c *caseRun) finishOpD(op string, h string, dr bool) {
 	c.ops = append(c.ops, op)
 	c.outs = append(c.outs, fmt.Sprintf("([%s], %v)", strings.Join(c.s.items, "; "), dr))
+	c.cbs = append(c.cbs, fmt.Sprintf("(%d%%nat, [%s])", c.batch, strings.Join(c.s.cbs, "; ")))
+	c.batch = 0
 	if len(c.s.human) > 0 {
 		h += " -> " + strings.Join(c.s.human, ", ")
 	}
@@ -137,7 +153,7 @@ func (c *caseRun) finishOpD(op string, h string, dr bool) {
 	if dr && !c.pendingResync && c.restartWithLive {
 		c.convergedAfterRst = true
 	}
-	c.s.items, c.s.human = nil, nil
+	c.s.items, c.s.human, c.s.cbs = nil, nil, nil
 }
 
 func (c *caseRun) restart() {
@@ -191,12 +207,26 @@ func (c *caseRun) updates(us []upd) {
 
 func (c *caseRun) pull(n int) {
 	c.d.VerifPull(c.s, n)
+	c.batch = n
 	c.finishOp(fmt.Sprintf("OpPull %d%%nat", n), fmt.Sprintf("pull %d", n))
+	if c.events != nil {
+		c.events = append(c.events, fmt.Sprintf("EvPull %d%%nat", n))
+	}
 }
 
+// drain: the package's own loop (batches of 100 until empty) = one pull of everything (c25_drain_is_pull_all);
+// the callbacks are compared with the model's chunks of 100.
 func (c *caseRun) drain() {
+	n := max(c.d.VerifQueueLen(), 100)
+	if n > 100 {
+		c.multiBatch = true
+	}
 	_ = c.d.VerifDrain(c.s)
-	c.finishOp("OpPull 100%nat", "drain")
+	c.batch = 100
+	c.finishOp(fmt.Sprintf("OpPull %d%%nat", n), "drain")
+	if c.events != nil {
+		c.events = append(c.events, fmt.Sprintf("EvPull %d%%nat", n))
+	}
 }
 
 // type carried by a value-less update: usually "deleted", but Typha forwards validation failures (nil value) with
@@ -544,6 +574,19 @@ func (c *clientRun) burst(truthRestart bool) {
 		}
 		c.finishOpD("OpRestart", "connection dropped by the endpoint (restart)", dr)
 	}
+	// the wire event(s) and what Model.client_ops makes of them
+	ordOf := func(st api.SyncStatus) string {
+		for _, rc := range rs {
+			if rc.kind == "status" && rc.st == st {
+				return ordStr(rc.ord)
+			}
+		}
+		return ""
+	}
+	if truthRestart {
+		c.events = append(c.events, fmt.Sprintf("EvDrop [%s]", ordOf(api.WaitForDatastore)))
+	}
+	c.events = append(c.events, fmt.Sprintf("EvConnect [%s]", ordOf(api.ResyncInProgress)))
 	for i, rc := range rs {
 		switch rc.kind {
 		case "restart":
@@ -619,6 +662,7 @@ func (c *clientRun) srvStatus(st api.SyncStatus) {
 		c.pendingResync = false
 	}
 	c.finishOp(fmt.Sprintf("OpStatus %s [%s]", statusName[st], ordStr(ord)), "endpoint sends status "+statusName[st])
+	c.events = append(c.events, fmt.Sprintf("EvStatus %s [%s]", statusName[st], ordStr(ord)))
 	c.lastDrained = c.d.VerifQueueLen() == 0
 }
 
@@ -653,6 +697,7 @@ func (c *clientRun) srvUpdates(us []upd) {
 	}
 	c.take()
 	c.finishOp(fmt.Sprintf("OpUpdates [%s]", strings.Join(cs, "; ")), "endpoint sends "+strings.Join(hs, ","))
+	c.events = append(c.events, fmt.Sprintf("EvKVs [%s]", strings.Join(cs, "; ")))
 	c.lastDrained = c.d.VerifQueueLen() == 0
 }
 
@@ -663,7 +708,7 @@ func (c *clientRun) pullSome(pct int) {
 
 func genClient(r *rng) line {
 	d := dedupebuffer.New()
-	base := &caseRun{d: d, s: &sink{view: map[int]int{}}}
+	base := &caseRun{d: d, s: &sink{view: map[int]int{}}, events: []string{}}
 	c := &clientRun{caseRun: base, r: r, w: &recCB{d: d}, tags: map[string]bool{}}
 	c.lastDrained = true
 	ln, err := net.Listen("tcp", "127.0.0.1:0")
@@ -785,7 +830,8 @@ func genClient(r *rng) line {
 		c.ops = append(c.ops, "OpPull 0%nat")
 		c.tags["client:trouble"] = true
 	}
-	coq := fmt.Sprintf("{| c_ops := [%s]; c_outs := [%s] |}", parenJoin(c.ops), strings.Join(c.outs, "; "))
+	coq := fmt.Sprintf("{| c_ops := [%s]; c_outs := [%s]; c_cbs := [%s]; c_events := [%s] |}", parenJoin(c.ops),
+		strings.Join(c.outs, "; "), strings.Join(c.cbs, "; "), parenJoin(c.events))
 	tags := []string{"gen:real-syncclient", fmt.Sprintf("restarts:%d", min(c.restarts, 3))}
 	var ctags []string
 	for t := range c.tags {
@@ -806,9 +852,58 @@ func genClient(r *rng) line {
 		Sample: map[string]any{"stream": "real syncclient over loopback", "trace": c.human}, Tags: tags}
 }
 
+// bulk case: more than 100 resources, so that the drain loop needs several batches of 100 and the callbacks
+// of one drain are cut at the batch boundaries; a restart with many vanished resources (many synthesized deletions
+// in Go map order).
+func genBulk(r *rng, c *caseRun) {
+	nk := 105 + r.intn(40)
+	send := func(keys []int, per int) {
+		for len(keys) > 0 {
+			n := min(per, len(keys))
+			var us []upd
+			for _, k := range keys[:n] {
+				us = append(us, upd{k, 1 + r.intn(numVals), api.UpdateTypeKVNew})
+			}
+			c.updates(us)
+			keys = keys[n:]
+		}
+	}
+	var all []int
+	for k := 0; k < nk; k++ {
+		all = append(all, k)
+	}
+	c.status(api.ResyncInProgress)
+	send(all, 40+r.intn(30))
+	if r.intn(2) == 0 {
+		c.status(api.InSync)
+	}
+	if r.intn(3) == 0 {
+		c.pull(1 + r.intn(120))
+	}
+	c.drain()
+	c.restart()
+	c.status(api.WaitForDatastore)
+	var kept []int
+	for _, k := range all {
+		if r.intn(4) != 0 {
+			kept = append(kept, k)
+		}
+	}
+	send(kept, 40+r.intn(30))
+	if r.intn(3) == 0 {
+		c.pull(1 + r.intn(60))
+	}
+	c.status(api.InSync)
+	if r.intn(2) == 0 {
+		c.pull(100)
+	}
+	c.drain()
+}
+
 func main() {
 	n := flag.Int("n", 100, "cases")
 	seed := flag.Uint64("seed", 1, "seed")
+	nbulk := flag.Int("nbulk", 0, "cases with more than 100 resources (several batches per drain)")
 	nclient := flag.Int("nclient", 0, "cases of the second stream (real syncclient + real buffer over loopback)")
 	flag.Parse()
 	logrus.SetLevel(logrus.PanicLevel)
@@ -818,9 +913,11 @@ func main() {
 	for i := 0; i < *nclient; i++ {
 		_ = enc.Encode(genClient(rc))
 	}
-	for i := 0; i < *n; i++ {
+	rb := &rng{s: *seed ^ 0xb01c25}
+	for i := 0; i < *n+*nbulk; i++ {
 		c := &caseRun{d: dedupebuffer.New(), s: &sink{view: map[int]int{}}}
 		var tag string
+		bulk := i >= *n
 		func() {
 			// A panic inside the real code must become a failing case with a replay, not a dead driver:
 			// record an operation without an observation, which the oracle rejects.
@@ -831,6 +928,11 @@ func main() {
 					tag += "+panic"
 				}
 			}()
+			if bulk {
+				tag = "gen:bulk"
+				genBulk(rb, c)
+				return
+			}
 			switch k := r.intn(10); {
 			case k < 5:
 				tag = "gen:protocol"
@@ -843,13 +945,17 @@ func main() {
 				genRandom(r, c, true)
 			}
 		}()
-		coq := fmt.Sprintf("{| c_ops := [%s]; c_outs := [%s] |}", parenJoin(c.ops), strings.Join(c.outs, "; "))
+		coq := fmt.Sprintf("{| c_ops := [%s]; c_outs := [%s]; c_cbs := [%s]; c_events := [] |}", parenJoin(c.ops),
+			strings.Join(c.outs, "; "), strings.Join(c.cbs, "; "))
 		tags := []string{tag, fmt.Sprintf("restarts:%d", min(c.restarts, 3))}
 		if c.synthDeletes {
 			tags = append(tags, "synthesized-deletes")
 		}
 		if c.valueless {
 			tags = append(tags, "valueless-update-typed-new/updated/unknown")
+		}
+		if c.multiBatch {
+			tags = append(tags, "drain-in-several-batches")
 		}
 		if c.convergedAfterRst {
 			tags = append(tags, "converged-after-restart")
